@@ -258,10 +258,12 @@ class PlainPerDocReader(base.PerDocumentReader, LineReader):
         return sum(self._iter_lengths(fieldname))
 
     def min_field_length(self, fieldname):
-        return min(self._iter_lengths(fieldname))
+        lens = list(self._iter_lengths(fieldname))
+        return min(lens) if lens else 0
 
     def max_field_length(self, fieldname):
-        return max(self._iter_lengths(fieldname))
+        lens = list(self._iter_lengths(fieldname))
+        return max(lens) if lens else 0
 
     def has_vector(self, docnum, fieldname):
         if self._find_doc(docnum):
@@ -390,7 +392,11 @@ class PlainTermsReader(base.TermsReader, LineReader):
 
     def __contains__(self, term):
         fieldname, btext = term
-        return self._find_term(fieldname, btext)
+        try:
+            return self._find_term(fieldname, btext)
+        except TermNotFound:
+            # (no term of that field at all)
+            return False
 
     def indexed_field_names(self):
         return self._iter_fields()
